@@ -1367,21 +1367,27 @@ class Authenticated(BaseClientHandler):
             )
             return
 
-        await self.send_pending_notifications()
-
-        # If we selected the mailbox via 'examine' then we can not make any
-        # changes anyways...
-        #
-        if self.examine:
-            return
-
         # In order for the EXPUNGE operation to immediately send EXPUNGE
         # messages to this client we will do a bit of a hack and indicate
         # that this client is "idling" while the operation is running.
         #
+        # NOTE: We do that before sending the pending notifications: whatever
+        #       another command generates for this client from now on has to
+        #       go out in order, not be queued behind the EXPUNGEs that we
+        #       are about to send directly (sending the pending notifications
+        #       can take a while with a slow client.)
+        #
+        idling = self.idling
         try:
-            idling = self.idling
             self.idling = True
+            await self.send_pending_notifications()
+
+            # If we selected the mailbox via 'examine' then we can not make
+            # any changes anyways...
+            #
+            if self.examine:
+                return
+
             async with cmd.ready_and_okay(self.mbox):
                 # Do an EXPUNGE if there are any messages marked 'Delete'
                 #
@@ -1760,7 +1766,11 @@ class Authenticated(BaseClientHandler):
         # the selected mailbox itself) refers to message sequence numbers
         # from before the expunge, so it has to go out before the EXPUNGEs.
         #
-        await self.send_pending_notifications()
+        # (And from here on notifications go straight to this client, so that
+        # nothing gets queued behind the EXPUNGEs we are about to send.)
+        #
+        idling = self.idling
+        self.idling = True
         # NOTE: The phony command is labelled as a MOVE, not an EXPUNGE: an
         #       EXPUNGE is let through without waiting for other commands
         #       when no message is flagged `\Deleted`, but this one removes
@@ -1769,8 +1779,7 @@ class Authenticated(BaseClientHandler):
         expunge_cmd = IMAPClientCommand("A001 MOVE")
         expunge_cmd.command = IMAPCommand.MOVE
         try:
-            idling = self.idling
-            self.idling = True
+            await self.send_pending_notifications()
             async with expunge_cmd.ready_and_okay(self.mbox):
                 await self.mbox.expunge(
                     uid_msg_set=src_uid_list,
